@@ -1,6 +1,7 @@
 import PQ.Lemmas.SrcEquiv
 import PQ.Lemmas.SrcEquivStore
 import PQ.Lemmas.SrcEquivDQ
+import PQ.Lemmas.SrcEquivOps
 /-!
 # Source-translated tie: audit file
 
@@ -29,6 +30,15 @@ comparison counter `ticks`), the same result value, the same fault with the same
 | `DoublePriorityQueue::up_heapify`                | `SrcGen.dqUpHeapify`  | `DQ.upHeapify`   | `SrcEquiv.dqUpHeapify`    |
 | `DoublePriorityQueue::heap_build`                | `SrcGen.dqHeapBuild`  | `DQ.heapBuild`   | `SrcEquiv.dqHeapBuild`    |
 | `DoublePriorityQueue::find_max`                  | `SrcGen.dqFindMax`    | `DQ.findMax`     | `SrcEquiv.dqFindMax`      |
+| `DoublePriorityQueue::find_min`                  | `SrcGen.dqFindMin`    | `DQ.findMin`     | `SrcEquiv.dqFindMin`      |
+| `PriorityQueue::pop`                             | `SrcGen.pqPop`        | `MaxQ.pop`       | `SrcEquiv.pqPop`          |
+| `PriorityQueue::remove`                          | `SrcGen.pqRemove`     | `MaxQ.remove`    | `SrcEquiv.pqRemove`       |
+| `DoublePriorityQueue::pop_min`                   | `SrcGen.dqPopMin`     | `DQ.popMin`      | `SrcEquiv.dqPopMin`       |
+| `DoublePriorityQueue::pop_max`                   | `SrcGen.dqPopMax`     | `DQ.popMax`      | `SrcEquiv.dqPopMax`       |
+| `DoublePriorityQueue::remove`                    | `SrcGen.dqRemove`     | `DQ.remove`      | `SrcEquiv.dqRemove`       |
+
+NOT tied this way (sampled correspondence check only): `push`, `push_increase`, `push_decrease`, `change_priority`,
+`change_priority_by`, `pop_if`-family, `peek*`, iterators, `append` / `extend` / `retain*`, `From` / `FromIterator`, serde.
 
 Trusted: the Python translator and the interpreter's reading of the primitives (see `PQ/Model/SRC_README.md`).
 -/
@@ -82,6 +92,12 @@ example : (match Src.run SrcGen.prog 2 .dqFindMax s3 [] with
     | .ok (s', .optNat r) => (s'.ticks, r)
     | _ => (99, none)) = (1, some 1) := by decide
 
+/-- `pop` through the interpreter and through the model: same tables, same tick count -/
+example : obs (Src.run SrcGen.prog 6 .pqPop s3 []) = obsM ((MaxQ.pop s3).map (·.1)) ∧
+    (obsM ((MaxQ.pop s3).map (·.1))).isSome := by decide
+example : obs (Src.run SrcGen.prog 7 .dqPopMax s3 []) = obsM ((DQ.popMax s3).map (·.1)) ∧
+    (obsM ((DQ.popMax s3).map (·.1))).isSome := by decide
+
 /-- too little fuel is reported as such, never as a wrong result -/
 example : fault (Src.run SrcGen.prog 1 .pqHeapify s3 [0]) = some .fuel := by decide
 
@@ -104,3 +120,9 @@ end PQ.SrcTie
 #print axioms PQ.SrcEquiv.dqUpHeapify
 #print axioms PQ.SrcEquiv.dqHeapBuild
 #print axioms PQ.SrcEquiv.dqFindMax
+#print axioms PQ.SrcEquiv.dqFindMin
+#print axioms PQ.SrcEquiv.pqPop
+#print axioms PQ.SrcEquiv.pqRemove
+#print axioms PQ.SrcEquiv.dqPopMin
+#print axioms PQ.SrcEquiv.dqPopMax
+#print axioms PQ.SrcEquiv.dqRemove
